@@ -38,6 +38,7 @@ class BinarySearchTreeAdapted1D(Sampling):
     def __init__(self, model: LevyModel, grid: CTMCGrid, intensity_of_jumps: float):
         super().__init__()
         self.model = model
+        self.grid = grid
         self.axis = grid.axes[0]
         self.uniform = Uniform()
 
@@ -70,9 +71,10 @@ class BinarySearchTreeAdapted1D(Sampling):
         while left != right:
             middle = (left + right) // 2
             l, r = left, middle  # choose left interval by default
-            a, b = 0.5 * (axis[max(0, l - 1)] + axis[l]), 0.5 * (
-                axis[r] + axis[min(len(axis) - 1, r + 1)]
-            )
+            # cell boundaries as the grid defines them (not always the arithmetic mid-points)
+            middle_point = self.grid.middle
+            a = middle_point(axis[max(0, l - 1)], axis[l])
+            b = middle_point(axis[r], axis[min(len(axis) - 1, r + 1)])
             p = self._compute_probability(a, b)
 
             if current_p > p:
